@@ -30,6 +30,7 @@ type ConfCase struct {
 	Schema *model.Schema `json:"schema"`
 	Faults []Fault       `json:"faults,omitempty"`
 	Append []string      `json:"append,omitempty"` // types appended after NewSchema, in this order
+	Omit   []string      `json:"omit,omitempty"`   // types left out of NewSchema that arrive only through an appended type
 }
 
 var c11Ops = []string{
@@ -716,6 +717,46 @@ func c11Oracle(c *ConfCase) (msg string, accepted bool) {
 		if len(c.Faults) == 0 {
 			return fmt.Sprintf("HARNESS/valid configuration rejected: %v", err), false
 		}
+		// the same malformed types arriving through AppendType: an error, or a consistent schema
+		if len(c.Append) > 0 {
+			s2, b2, err2, pan := attempt(append(append([]string{}, c.Append...), c.Omit...))
+			if pan != "" || err2 != nil {
+				return "", false // the fault is (also) in what remains: already judged above
+			}
+			for _, a := range c.Append {
+				var perr error
+				var pp string
+				func() {
+					defer func() {
+						if r := recover(); r != nil {
+							pp = fmt.Sprint(r)
+						}
+					}()
+					perr = s2.AppendType(b2.types[a])
+				}()
+				if pp != "" {
+					return fmt.Sprintf("AppendType(%s) panicked on a malformed type: %s\n  faults: %+v", a, pp, c.Faults), false
+				}
+				if perr != nil {
+					return "", false
+				}
+			}
+			var m, pp string
+			func() {
+				defer func() {
+					if r := recover(); r != nil {
+						pp = fmt.Sprint(r)
+					}
+				}()
+				m = consistent(&s2)
+			}()
+			if pp != "" {
+				return fmt.Sprintf("schema accepted by AppendType %v panics when inspected: %s\n  faults: %+v", c.Append, pp, c.Faults), true
+			}
+			if m != "" {
+				return fmt.Sprintf("NewSchema rejects this configuration up front (%v), but AppendType %v (omitted up front: %v) returned no error and the schema is inconsistent: %s\n  faults: %+v", err, c.Append, c.Omit, m, c.Faults), true
+			}
+		}
 		return "", false
 	}
 	var pan2 string
@@ -743,8 +784,8 @@ func c11Oracle(c *ConfCase) (msg string, accepted bool) {
 		return fmt.Sprintf("NewSchema returned no error but the schema is inconsistent: %s\n  faults: %+v", msg, c.Faults), true
 	}
 	// appending types afterwards gives the same schema as supplying them up front
-	if len(c.Append) > 0 && len(c.Faults) == 0 {
-		s2, b2, err2, pan := attempt(c.Append)
+	if len(c.Append) > 0 {
+		s2, b2, err2, pan := attempt(append(append([]string{}, c.Append...), c.Omit...))
 		if pan != "" {
 			return "construction without the appended types panicked: " + pan, true
 		}
@@ -852,16 +893,7 @@ func TestC11(t *testing.T) {
 			}
 			c.Faults = append(c.Faults, f)
 		}
-		if len(c.Faults) == 0 {
-			for _, td := range s.Types {
-				if strings.HasPrefix(td.Name, "X") && gen.Chance(rt, 70, "append") {
-					c.Append = append(c.Append, td.Name)
-				}
-			}
-			if len(c.Append) == 2 && gen.Chance(rt, 50, "swap") {
-				c.Append[0], c.Append[1] = c.Append[1], c.Append[0]
-			}
-		}
+		drawAppend(rt, s, &c.Append, &c.Omit)
 		msg, accepted := c11Oracle(c)
 		for _, f := range c.Faults {
 			stats.R.Class("fault_" + f.Op)
